@@ -38,6 +38,11 @@ def work(arg):
                     del new[i]
                 elif op == "duplicate":
                     new.insert(i, new[i])
+                elif op == "duplicate2":
+                    j = next((x for x in sig if x > i), None)
+                    if j is None:
+                        continue
+                    new[i:i] = new[i:j + 1] + [" "]
                 elif op == "split":
                     if len(new[i]) < 2:
                         continue
